@@ -24,7 +24,7 @@ THEOREMS = {
             "Lemmas.Rev.detect_ok_of_ranked", "Lemmas.Rev.mem_closureOf_iff"],
     "C16": ["C16.full_id", "C16.plain_sound", "C16.prefix_unique_partial", "C16.prefix_unique_counterexample",
             "C16.symbolic_heads", "C16.symbolic_base", "C16.walk_up_exact", "C16.walk_down_exact", "C16.walk_up_history", "C16.walk_down_history", "C16.stepsDown_iff", "C16.load_ids_legal", "C16.walkStep_up", "C16.walkStep_down", "Lemmas.Rev.revisionForIdent_sound",
-            "C16.rel_up_id", "C16.rel_up_row", "C16.rel_down_id", "C16.rel_dgrade_id", "C16.rel_dgrade_row", "C16.self_qualified", "C16.stepsDown_base_iff", "C16.branch_head", "C16.branch_head_ambiguous", "C16.branch_heads", "C16.sharesLineage_history", "C16.branch_heads_history", "C16.branch_head_history", "C16.rel_up_empty", "C16.walk_up_from_base", "C16.rel_up_empty_label", "C16.prefix_unique_resolves", "C16.load_labelKeys_fresh", "C16.branch_id", "C16.branch_id_history", "C16.parse_dgrade_qualified", "C16.rpartitionAt_at", "C16.upgrade_prefix_eq_full", "C16.upgradeRevs_congr", "C16.downgrade_prefix_eq_full", "C16.prefix_unique_resolves_single", "C16.revisionForIdent_prefix"],
+            "C16.rel_up_id", "C16.rel_up_row", "C16.rel_down_id", "C16.rel_dgrade_id", "C16.rel_dgrade_row", "C16.self_qualified", "C16.stepsDown_base_iff", "C16.branch_head", "C16.branch_head_ambiguous", "C16.branch_heads", "C16.sharesLineage_history", "C16.branch_heads_history", "C16.branch_head_history", "C16.rel_up_empty", "C16.walk_up_from_base", "C16.rel_up_empty_label", "C16.prefix_unique_resolves", "C16.load_labelKeys_fresh", "C16.branch_id", "C16.branch_id_history", "C16.parse_dgrade_qualified", "C16.rpartitionAt_at", "C16.upgrade_prefix_eq_full", "C16.upgradeRevs_congr", "C16.downgrade_prefix_eq_full", "C16.prefix_unique_resolves_single", "C16.revisionForIdent_prefix", "C16.symbolic_head"],
 }
 PARTIAL = {
     "C05": {
